@@ -63,6 +63,101 @@ def run_variant(prop, repo, var):
     return 'applied', code, lines
 
 
+def apply_unified_diff(repo, diff_text):
+    """apply a unified diff in memory -> {relpath: new source} or None when a hunk does not match"""
+    import re
+    files, cur = {}, None
+    lines = diff_text.splitlines()
+    i = 0
+    while i < len(lines):
+        l = lines[i]
+        if l.startswith('+++ '):
+            rel = l[4:].strip()
+            rel = rel[2:] if rel.startswith('b/') else rel
+            cur = rel
+            files[cur] = []
+        elif l.startswith('@@') and cur is not None:
+            m = re.match(r'@@ -(\d+)(?:,(\d+))? \+(\d+)(?:,(\d+))? @@', l)
+            if not m:
+                return None
+            hunk = {'start': int(m.group(1)), 'lines': []}
+            i += 1
+            while i < len(lines) and not lines[i].startswith('@@') and not lines[i].startswith('diff ') \
+                    and not lines[i].startswith('--- '):
+                if lines[i].startswith('\\'):
+                    i += 1
+                    continue
+                hunk['lines'].append(lines[i])
+                i += 1
+            files[cur].append(hunk)
+            continue
+        i += 1
+    out = {}
+    for rel, hunks in files.items():
+        path = os.path.join(repo, rel)
+        if not os.path.exists(path):
+            return None
+        with open(path, encoding='utf-8') as fh:
+            src = fh.read().split('\n')
+        offset = 0
+        for h in hunks:
+            old = [x[1:] for x in h['lines'] if x[:1] in (' ', '-') or x == '']
+            new = [x[1:] for x in h['lines'] if x[:1] in (' ', '+') or x == '']
+            pos = h['start'] - 1 + offset
+            # tolerate drift: search near the recorded position
+            found = None
+            for d in sorted(range(-60, 61), key=abs):
+                p = pos + d
+                if 0 <= p and src[p:p + len(old)] == old:
+                    found = p
+                    break
+            if found is None:
+                return None
+            src[found:found + len(old)] = new
+            offset += len(new) - len(old) + (found - pos)
+        out[rel] = '\n'.join(src)
+    return out
+
+
+def seeded_changes(prop):
+    """(id, overlay-or-None, expected) for the independently seeded changes written against this property"""
+    import json
+    from .report import VERIF
+    root = os.path.join(VERIF, 'seeded')
+    res = []
+    if not os.path.isdir(root):
+        return res
+    for sid in sorted(os.listdir(root)):
+        d = os.path.join(root, sid)
+        if not os.path.isdir(d) or not sid.startswith(prop + '-'):
+            continue
+        try:
+            meta = json.load(open(os.path.join(d, 'meta.json')))
+            diff = open(os.path.join(d, 'patch.diff'), encoding='utf-8').read()
+        except Exception:
+            continue
+        res.append((sid, diff, meta.get('expected_own_check', 'detected')))
+    return res
+
+
+def _seed_job(args):
+    prop, repo, sid, diff = args
+    from .main import analyse
+    try:
+        overlay = apply_unified_diff(repo, diff)
+    except Exception:
+        overlay = None
+    if overlay is None:
+        return sid, 'inapplicable', None
+    try:
+        project = Project(repo, overlay=overlay)
+    except AnalysisError:
+        return sid, 'applied', 2
+    run, err = analyse(prop, project, 'quick')
+    code, lines = finish(run, project, error=err, write=False, quiet=True)
+    return sid, 'applied', code
+
+
 def _job(args):
     prop, repo, vid = args
     from .variants import VARIANTS
@@ -103,8 +198,29 @@ def run_selftest(prop, repo, jobs=None):
             res['undecided_on_breaking'].append(vid)
         else:
             res['missed'].append(vid)
+    # independently seeded changes written against this property (see /verif/seeded/MATRIX.md)
+    seeds = seeded_changes(prop)
+    res['seeded_applied'], res['seeded_detected'], res['seeded_missed'], res['seeded_known_misses'] = 0, 0, [], []
+    res['seeded_inapplicable'] = []
+    if seeds:
+        with concurrent.futures.ProcessPoolExecutor(max_workers=jobs) as ex:
+            sres = list(ex.map(_seed_job, [(prop, repo, sid, diff) for sid, diff, exp in seeds]))
+        expected = {sid: exp for sid, diff, exp in seeds}
+        for sid, status, code in sres:
+            if status == 'inapplicable':
+                res['seeded_inapplicable'].append(sid)
+                continue
+            res['seeded_applied'] += 1
+            if code == 1:
+                res['seeded_detected'] += 1
+            elif expected.get(sid) != 'detected':
+                res['seeded_known_misses'].append(sid)
+            else:
+                res['seeded_missed'].append({'seeded': sid, 'exit': code})
     err = None
-    if res['benign_flagged']:
+    if res.get('seeded_missed'):
+        err = "self-validation: seeded change(s) no longer reported: %s" % [x['seeded'] for x in res['seeded_missed']]
+    elif res['benign_flagged']:
         err = "self-validation: benign twin(s) reported: %s" % [b['variant'] for b in res['benign_flagged']]
     elif res['applied'] and not res['detected']:
         err = "self-validation: none of the %d applicable breaking variants was detected" % res['applied']
